@@ -61,10 +61,10 @@ Verdicts(r) ==
         \cup (IF r.ms > 10000 /\ Lt(w, FromInt(1000000)) THEN {<<"C11", "executing a covenant of weight below 10^6 took more than 10 seconds">>} ELSE {})
         \cup (IF r.work > WEIGH_C1 * n * n + 16 THEN {<<"C11", "weighing cost super-quadratic in program length">>} ELSE {})
 
-\* deep nesting, run in a child process: k nested Loop(0, 65535) followed by PushIC 1 weigh k + 1
+\* deep nesting / great length, run in a child process: k nested Loop(0, 65535), or k Noop, followed by PushIC 1 weigh k + 1
 DeepVerdicts(r) ==
-       (IF r.status # "ok" THEN {<<"C09", "weighing a covenant of deeply nested loops killed the process (" \o r.status \o ")">>,
-                                 <<"C11", "weighing a covenant of deeply nested loops killed the process (" \o r.status \o ")">>} ELSE {})
+       (IF r.status # "ok" THEN {<<"C09", "weighing a covenant of " \o (IF r.fam = "cost-long-flat" THEN "very many instructions" ELSE "deeply nested loops") \o " killed the process (" \o r.status \o ")">>,
+                                 <<"C11", "weighing a covenant of " \o (IF r.fam = "cost-long-flat" THEN "very many instructions" ELSE "deeply nested loops") \o " killed the process (" \o r.status \o ")">>} ELSE {})
   \cup (IF r.status = "ok" /\ r.weight # FromInt(r.k + 1) THEN {<<"C11", "covenant weight differs from the specification">>, <<"C05", "covenant weight differs from the specification">>} ELSE {})
   \cup (IF r.status = "ok" /\ r.ms > 20000 THEN {<<"C11", "weighing a covenant took more than 20 seconds">>} ELSE {})
 \* deeply nested values, run in a child process.  KNOWN FINDING (not repaired): cloning / dropping a vector nested tens of thousands deep
